@@ -1,5 +1,6 @@
 import MorphKgc.Drv.Util
 import MorphKgc.Gen.Escape
+import MorphKgc.Gen.Canon
 import MorphKgc.Model.Eval
 import MorphKgc.Spec.NTerm
 
@@ -31,7 +32,7 @@ def termCfg (j : Json) : TermCfg :=
   { safe := gStrD j "safe",
     nonPrintable := if gBoolD j "only_printable" false then some (fun c => np.contains c) else none,
     escapeChain := Gen.escapeChainTemplate,
-    canon := canonBuiltin }
+    canon := fun dt v => match canonFor Gen.canonSiteTemplate.ladder dt v with | .ok r => r | .error _ => v }
 
 def parseEnv (j : Json) : R Env := do
   let tables ← parseTables j
